@@ -17,7 +17,7 @@ from .srf import read_model, SEEDS
 
 NAME = "condsrf"
 PROPERTY = "C07"
-TIERS = {"quick": (3000, 80.0), "thorough": (100000, 1800.0)}
+TIERS = {"quick": (2500, 90.0), "thorough": (100000, 1800.0)}
 CHANGE_KINDS = {"set_pos", "set_condition", "inplace_model", "assign_model", "assign_post",
                 "delete_fields", "krige_direct", "reseed"}
 OBSERVE_KINDS = {"gen"}
